@@ -12,7 +12,7 @@ import "errors"
 //verif:run quick n=91 sep=-1,1,40
 //verif:run thorough n=16..22 sep=-1..22
 //verif:run thorough n=40 sep=10
-//verif:run thorough n=89..90 sep=1,40,82,83,84
+//verif:run thorough n=89..90 sep=40,82,83,84
 //verif:timeout 120
 //verif:replace bech32Polymod verifSummaryPolymod
 //verif:reach accepted
